@@ -69,7 +69,7 @@ fn hc(thorough: bool) -> HistCheck<'static> {
 
 pub fn run(ctx: &Ctx, col: &Collector) -> Meta {
     let h = hc(ctx.thorough);
-    run_hist(ctx, col, &h, ctx.n(5000, 80_000));
+    run_hist(ctx, col, &h, ctx.n(5000, 40_000));
     if col.class_count("tracing-relation-checked") == 0 && !col.stopped() {
         col.note("generator unhealthy: tracing relation never evaluated");
     }
